@@ -92,7 +92,7 @@ func checkC01(c c01Case) verdict {
 			param = otp.DefaultTOTPParam
 		}
 	}
-	disturb(c.Before)
+	disturb(c.Before, secret)
 	got, err := otp.GenerateHOTP(secret, c.Counter, param)
 	supported := digits >= 1 && digits <= 10 && algo >= 0 && algo <= 2
 	labels := []string{counterClass(c.Counter), keyClass(len(c.Key))}
